@@ -69,8 +69,42 @@ def variant_text(rng, b, kind):
     raise ValueError(kind)
 
 
+def order_sensitive_building(rng):
+    """carriers, services and sources whose figures differ by seven orders of magnitude: in f32 the sum 2^24 + 1 + 1 + 1 depends on
+    the order of the terms, so any total accumulated in the iteration order of a hash map differs between two evaluations (fixes
+    85f4cb1, ae3af29)"""
+    b = gen.Building()
+    b.n = 1
+    big = Fraction(2 ** 24)
+    small = lambda: Fraction(1)
+    b.add("CONSUMO", id=1, service="ACS", carrier="TERMOSOLAR", values=[big])
+    b.add("CONSUMO", id=2, service="ACS", carrier="EAMBIENTE", values=[small()])
+    b.add("CONSUMO", id=3, service="ACS", carrier="RED1", values=[small()])
+    b.add("CONSUMO", id=4, service="ACS", carrier="RED2", values=[small()])
+    b.add("CONSUMO", id=5, service="CAL", carrier="GASNATURAL", values=[big])
+    b.add("CONSUMO", id=6, service="ILU", carrier="ELECTRICIDAD", values=[small()])
+    b.add("CONSUMO", id=6, service="VEN", carrier="ELECTRICIDAD", values=[small()])
+    b.add("CONSUMO", id=7, service="REF", carrier="BIOMASA", values=[small()])
+    b.add("PRODUCCION", id=6, source="EL_INSITU", values=[Fraction(3, 2)])
+    b.add("DEMANDA", service="ACS", values=[big + 3])
+    b.tags.add("order_sensitive_sums")
+    return b
+
+
 def make_pairs(rng, count):
     pairs = []
+    for i in range(6):
+        b = order_sensitive_building(rng)
+        base_text = "\n".join(line_of(kd, kw) for kd, kw in b.lines) + "\n"
+        # district networks declared fully renewable by the user: every nearby carrier then contributes to the renewable sum
+        fspec, user = {"loc": rng.choice(core.LOCS)}, {"red1": [1.0, 0.0, 0.0], "red2": [1.0, 0.0, 0.0]}
+        k, area, lm = gen.gen_params(rng)
+        base = epflow.EpCase("h%d" % i, {"text": base_text}, fspec, user, [(k, area, lm)], tags=b.tags, want=["acs"])
+        variants = []
+        for j in range(3):
+            v = epflow.EpCase("h%dr%d" % (i, j), {"text": base_text}, fspec, user, [(k, area, lm)], tags=b.tags, want=["acs"])
+            variants.append((v, metacheck.relate_exact(), "repeat"))
+        pairs.append((base, variants))
     for i in range(count):
         fspec, user = gen.gen_factors_spec(rng)
         k, area, lm = gen.gen_params(rng)
